@@ -99,6 +99,19 @@ let () =
             (match build_ops minor its with
              | Err c -> Buffer.add_string buf ("E" ^ string_of_int (int_of_nat c))
              | Ok ops -> Buffer.add_string buf (join ";" (fun o -> si o.idx ^ "," ^ si o.opc ^ "," ^ sopt o.target ^ "," ^ sopt o.next ^ "," ^ sopt o.prev) ops)))
+       | "A" ->
+         (* A <n> <n_pxb>  then n groups of 7 ints (as for O) and n_pxb positions with push_exc_block
+            -> "a<apbt_okb> E<code>"  or  "a<apbt_okb> <block_target>,<block_target>,..."   (add_pop_block_targets) *)
+         let n = geti 1 and np = geti 2 in
+         let ops = List.init n (fun k ->
+           let b = 3 + 7 * k in
+           { opc = n_of_int (geti b); target = opt (geti (b+1)); block_target = opt (geti (b+2));
+             eaft = opt (geti (b+3)); idx = n_of_int (geti (b+4)); next = opt (geti (b+5)); prev = opt (geti (b+6)) }) in
+         let pxb = List.init np (fun k -> n_of_int (geti (3 + 7 * n + k))) in
+         Buffer.add_char buf 'a'; Buffer.add_char buf (b2c (apbt_okb ops pxb)); Buffer.add_char buf ' ';
+         (match add_pop_block_targets ops pxb with
+          | Err c -> Buffer.add_string buf ("E" ^ string_of_int (int_of_nat c))
+          | Ok ops' -> Buffer.add_string buf (join "," (fun o -> sopt o.block_target) ops'))
        | t -> failwith ("bad token " ^ t));
       print_endline (Buffer.contents buf)
     done
